@@ -135,6 +135,8 @@ Proof.
   - specialize (IHu Hu). cbn [construct]. rewrite mk_map_five by (apply construct_wf; auto).
     rewrite !five_Map. f_equal. apply IHu.
   - (* Ren *) specialize (IHu Hu). exact (IHu rho (ren_drop r drop)).
+  - (* ParT *) specialize (IHu Hu). destruct (five_inv _ _ _ _ _ _ (IHu rho drop)) as [H1 [H2 [H3 [H4 H5]]]].
+    unfold five. cbn [construct obs plays obs_build wave obs_meas]. rewrite !map_app, H1, H2, H3, H4, H5. reflexivity.
 Qed.
 
 (* the specification of the constructed tree = the specification of the user-level tree *)
